@@ -1,6 +1,8 @@
 package base
 
 import (
+	"encoding/binary"
+
 	"github.com/relex/gotils/promexporter/promext"
 	"github.com/relex/gotils/promexporter/promreg"
 	"github.com/relex/slog-agent/util"
@@ -110,8 +112,10 @@ func (pcounter *LogProcessCounterSet) RegisterCustomCounter(label string) func(l
 func (pcounter *LogProcessCounterSet) SelectMetricKeySet(record *LogRecord) *LogInputCounterSet {
 	tempKeys := pcounter.metricKeyExtractor.Extract(record)
 
+	// each key is prefixed by its length, so that ("ab","c") and ("a","bc") don't merge into the same key
 	tempMergedKey := pcounter.mergeKeyBuffer
 	for _, tkey := range tempKeys {
+		tempMergedKey = binary.AppendUvarint(tempMergedKey, uint64(len(tkey)))
 		tempMergedKey = append(tempMergedKey, tkey...)
 	}
 	pcounter.mergeKeyBuffer = tempMergedKey[:0]
